@@ -26,10 +26,12 @@ const int[] GA = [10, 20, 30];
 int[] MA = [1, 2, 3];
 bool[] MB = [false, true, false];
 byte[] MY = ['p', 'q', 'r'];
+const string[] SA = ["zero", "one!"];
 
 int f(int x) { g += 1; write('f'); write(x); write(' '); return x * 2 + g; }
 bool p(int x) { write('p'); g += 2; return x > 1; }
 byte q(byte x) { write('q'); return x; }
+byte setb(byte x) { gb = x; gt = not gt; write('s'); return x; }
 empty h2(int x, int y) { write(x); write(','); write(y); }
 empty hb(bool x) { write(x); }
 empty hq(byte x) { write(x is int); }
@@ -52,8 +54,8 @@ def _leaves(reduced=False):
         }
     return {
         INT: ['a', 'g', 'K', '3', 'f(a)', 'arr[1]', 'GA[2]', 'MA[0]', 'arr.length', 's.length'],
-        BYTE: ['b', 's[1]', 'gb', "'c'", 'q(b)', 'MY[1]'],
-        BOOL: ['c', 'true', 'gt', 'p(a)', 'MB[1]'],
+        BYTE: ['b', 's[1]', 'gb', "'c'", 'q(b)', 'MY[1]', 'setb(b)', 'SA[1][s[1] - 100]', 'SA[0][(MB[1] is int) + 1]', 'SA[1][[2, 1][1]]'],
+        BOOL: ['c', 'true', 'gt', 'p(a)', 'MB[1]', '(setb(b) > 9)'],
     }
 
 
@@ -255,6 +257,8 @@ empty swap(int p, int q) { int t = p; p = q; q = t; write(p); write(q); }
 int rdg() { return g; }
 int twice() { int[] q = [3, 4]; q[1] += 1; return q[1]; }
 empty fillc(int[] q) { q[0] += 1; }
+int bumpr(int[] q) { q[0] += 100; return 1; }
+int touchg() { GR[1] = 50; return 2; }
 empty dump(int x, int y, const int[] r) {
     write(" x="); write(x); write(" y="); write(y); write(" g="); write(g);
     write(" r="); write(r[0]); write(','); write(r[1]); write(','); write(r[2]);
@@ -292,6 +296,7 @@ S_ATOMS = [
     # literals whose elements are all constant, modified and evaluated more than once
     'for (int i = 0; i < 2; i += 1) { int[] q = [1, 2]; q[0] += 5; y += q[0]; fillc(q); y += q[0]; }',
     'y = twice() + twice();',
+    'r[0] += bumpr(r); GR[1] -= touchg(); y += GR[1];',
     'for (int i = 0; i < 2; i += 1) { bool[] bq = [true, false]; if (bq[1]) { y += 100; } bq[1] = true; byte[] yq = [\'a\', \'b\']; yq[0] += 1; y += yq[0]; }',
 ]
 
@@ -400,8 +405,13 @@ int s3(const int[] a) { int t = 0; for (int i = 0; i < a.length; i += 1) { t = t
 empty inc(int[] a) { for (int i = 0; i < a.length; i += 1) { a[i] += 1; } }
 int both(const int[] a, int[] b) { inc(b); return s3(a) + s3(b); }
 empty wb(const byte[] s) { write(s); write(s.length); }
+empty which(int[] a) { write("mut"); a[0] += 0; }
+empty which(const int[] a) { write("const"); }
+empty view(const int[] v) { which(v); write(v[0]); }
+empty pass(int[] v) { which(v); view(v); }
 empty @is_you(int n) {
     int[] lm = [n, 2, 3]; const int[] lc = [n, 5, 6]; int vl[2]; vl[0] = n; vl[1] = 4;
+    which(lm); view(lm); which(GC); view(GC); which(lc); view(lc); which(vl); view(vl); which(GM); view(GM); pass(lm); pass(GM); pass(vl); which([n, 1]); view([n, 1]); writeln();
     writeln(s3(GC)); writeln(s3(GM)); writeln(s3(lm)); writeln(s3(lc)); writeln(s3(vl)); writeln(s3([n, n]));
     inc(GM); inc(lm); inc(vl); writeln(s3(GM)); writeln(s3(lm)); writeln(s3(vl));
     writeln(both(lm, lm)); writeln(both(GC, GM)); writeln(both(lc, vl)); writeln(s3(lm));
